@@ -503,7 +503,8 @@ Reopen(e) ==
         Fr(ok, what, exp, got) == IF ok THEN 0 ELSE IF PrintT(<<"FAIL", {"C10"}, e.tr, e.i, e.mode, inf.op, what, exp, got>>) THEN 1 ELSE 1
         \* CAS values handed out by the regular write API are at most hw; a caller-chosen (WithMeta) CAS may lie above
         \* the marks, which later regular writes legitimately set below it
-        hw == IF applied /\ inf.op \notin {"SetWithMeta", "DeleteWithMeta"} /\ seen(c, k).cas > clock THEN seen(c, k).cas ELSE clock
+        hw == IF applied /\ inf.op \notin {"SetWithMeta", "DeleteWithMeta"} /\ seen(c, k).cas # pre.cas /\ seen(c, k).cas > clock
+              THEN seen(c, k).cas ELSE clock
         maxCas(c2) == LET s == {seen(c2, k2).cas : k2 \in Keys} \cap 0..hw IN
                       IF s = {} THEN 0 ELSE CHOOSE m \in s : \A x \in s : x <= m
         fOpen == Fr(opened, <<"reopen-failed", e.site>>, "opens", e.openerr)
